@@ -8,7 +8,8 @@ EXPLANATION = (
     "Guarded-by analysis of NameServer.lock. Decided: every NameServer method that can touch the shared storage more than once "
     "on one path (check-then-act, read-modify-write, list-then-delete; accesses made through sibling methods count) performs "
     "all its storage accesses inside one `with self.lock` region; the lock is created once, is re-entrant (nested acquisition "
-    "through remove -> list), no other lock guards storage, and no blocking call runs inside a region. "
+    "through remove -> list), no other lock guards storage, and no blocking call runs inside a region; every mutating sqlite "
+    "storage operation is a single transaction, so the lock-free readers (lookup, count) never observe half of one. "
     "Not decided: linearizability of histories, atomicity inside one storage method."
 )
 
